@@ -23,16 +23,22 @@ def instances(tier):
         na, nr, aw, nm = 3, 4, 6, 8
     D = {"NAREA": na, "NREG": nr, "AWORDS": aw, "NMAX": nm}
     m = max(na, nr)
-    UW = {"memcpy": 2 * na * aw + 2, "memset": 2 * nm + 2, "vp_build": m + 3, "vp_desc_wellformed": m + 2,
+    UW = {"memcpy": 2 * nm + 2, "memset": 2 * nm + 2, "vp_build": m + 3, "vp_desc_wellformed": m + 2,
           "ref_area_of": na + 2, "ref_layout_ok": m + 2, "vp_link_direct": m + 2, "ref_area_first": nr + 2,
-          "vp_custom_read": aw + 1, "vp_custom_write": aw + 1, "vp_snap": nr + 2, "vp_mem_equal": aw + 2,
+          "vp_custom_read": aw + 1, "vp_custom_write": aw + 1, "vp_snap": max(aw, nr) + 2, "vp_mem_equal": aw + 2,
           "harness": max(aw, nm, m, nr + 2) + 3, "ra_find_area_by_addr": na + 2,
           "register_block_touches_hole": nm + 2, "register_block_read_unsafe": nm + 2,
           "find_area": na + 2, "find_reg": nr + 2, "reg_iterate": nr + 2}
     out = []
-    for mode in ("READ", "ITER"):
+    for nfix in range(0, nm + 1):
         d = dict(D)
-        d["MODE_" + mode] = None
-        out.append(mk("c03_%s" % mode.lower(), "C03/c03.c", [], d, unwind=UW, default_unwind=3, encoded_units=ENC,
+        d["MODE_READ"] = None
+        d["NFIX"] = nfix
+        d["NMAX"] = max(nfix, 1)
+        out.append(mk("c03_read_n%d" % nfix, "C03/c03.c", [], d, unwind=UW, default_unwind=3, encoded_units=ENC,
                       fp_removal=True, timeout=2400, object_bits=12))
+    d = dict(D)
+    d["MODE_ITER"] = None
+    out.append(mk("c03_iter", "C03/c03.c", [], d, unwind=UW, default_unwind=3, encoded_units=ENC,
+                  fp_removal=True, timeout=2400, object_bits=12))
     return out
